@@ -111,7 +111,7 @@ def build(tier, seed):
         lambda S: compute_vjp_single(S["dy"], ()), lambda S: np.zeros((1, 0)))
 
     # ---- compute_vjp_multi / compute_jvp_* : measurement lists of mixed shapes ---------------------------------------------------------
-    meas_lists = [[(), (2,)], [(2,), ()], [(), ()], [(3,), (2,), ()], [(2, 2), ()]]
+    meas_lists = [[(), (2,)], [(2,), ()], [(), ()], [(3,), (2,), ()], [(1,), (3,)], [(2,), (2,), (2,)]]
     if tier != "thorough":
         meas_lists = meas_lists[:4]
     for ml in meas_lists:
